@@ -356,9 +356,10 @@ class VerifyAttrs(object):
                 "size",
                 "value",
             ]:
+                # node is None for the parameters of a function pointer.
                 raise RuntimeError(
                     "Illegal attribute '{}' for argument '{}' defined at line {}".format(
-                        attr, argname, node.linenumber
+                        attr, argname, getattr(node, "linenumber", "?")
                     )
                 )
 
